@@ -124,7 +124,7 @@ fn header(g: &mut G) -> LefLibrary {
         lib.no_wire_extension_at_pin = g.of(&[None, Some(On), Some(Off)], "header.nwe_new");
     }
     lib.bus_bit_chars = g.of(&[Some(('[', ']')), Some(('<', '>')), Some(('(', ')')), None], "header.busbit");
-    lib.divider_char = g.of(&[Some('/'), Some('|'), Some(':'), None], "header.divider");
+    lib.divider_char = g.of(&[Some('/'), Some('|'), Some(':'), Some('\\'), None], "header.divider");
     lib.manufacturing_grid = g.opt_num("0.005", "header.mfg");
     lib.use_min_spacing = g.of(&[Some(On), Some(Off), None], "header.ums");
     lib.clearance_measure =
@@ -740,7 +740,7 @@ fn density(g: &mut G) -> LefLibrary {
 
 fn property(g: &mut G) -> LefLibrary {
     let mut lib = lib_v(Some("5.8"));
-    let v0 = g.of(&["1.5", "\"str val\"", "word", "-3", "\"\"", ".50", "-.25", "007", "1.50", "2.", "\" #x\""], "property.v0");
+    let v0 = g.of(&["1.5", "\"str val\"", "word", "-3", "\"\"", ".50", "-.25", "007", "1.50", "2.", "\" #x\"", "\"C:\\cells\\\"", "\"\\\""], "property.v0");
     let mut mp = vec![prop(&g.name("pa", "property.n0"), v0), prop("pb", "\"str ; val\""), prop("pc", "word")];
     let n = g.of(&[3usize, 1, 0], "property.count");
     mp.truncate(n);
